@@ -426,7 +426,7 @@ class InterpMachine(Machine):
     PROP = "C18"
     MAX_STEPS = 24
     MUTATORS = frozenset({"new_table", "extend", "set_modes", "adaptive", "schedule",
-                          "write_read", "evaluate", "derivative"})
+                          "write_read", "evaluate", "derivative", "table_from_values"})
     OBSERVERS = frozenset({"evaluate", "derivative", "write_read"})
     RULE = (
         "one history = one InterpolatableFunction subclass instance (87%: harness subclass, "
@@ -470,7 +470,7 @@ class InterpMachine(Machine):
     }
     REQUIRED_REACH["thorough"] = REQUIRED_REACH["quick"]
     OPS = ("new_table", "evaluate", "derivative", "extend", "set_modes", "adaptive",
-           "schedule", "write_read", "read_missing", "arm_raise")
+           "schedule", "write_read", "read_missing", "arm_raise", "table_from_values")
     POSSIBLE_BIGRAMS = len(OPS) * (len(OPS) + 1)
 
     # ------------------------------------------------------------------ config
@@ -569,6 +569,7 @@ class InterpMachine(Machine):
         self.lastQuestion: dict | None = None
         self.prevOp = "-"
         self.handedOut: tuple | None = None
+        self.callerBuffers: list = []
 
     def _newObject(self, adaptive: bool) -> Any:
         obj = self.cls(self.body, self.ctl, adaptive, self.cfg["n0"])
@@ -657,6 +658,16 @@ class InterpMachine(Machine):
             return "big", {"n": rng.choice([1000, 1500, 3000]), "seed": rng.randrange(10**6),
                            "lo": self._drawPoint(rng, "below" if place != "inside" else "inside"),
                            "hi": self._drawPoint(rng, "above" if place != "inside" else "inside")}, place
+        if form in ("list", "1d") and rng.random() < 0.08:
+            # integer-typed abscissae (a python int, a list of ints, an int array)
+            rg = self._range() or (-5.0, 5.0)
+            lo, hi = int(math.floor(rg[0])) - 3, int(math.ceil(rg[1])) + 3
+            lo = max(lo, int(math.ceil(self.body.domain[0])))
+            hi = min(hi, int(math.floor(self.body.domain[1])))
+            if hi >= lo:
+                vals = [rng.randint(lo, hi) for _ in range(rng.choice([1, 2, 4]))]
+                return rng.choice(["ints", "intarray", "int"]), \
+                    (vals[0] if len(vals) == 1 else vals), place
         if form in ("float", "0d"):
             return form, one(), place
         if form == "empty":
@@ -696,6 +707,10 @@ class InterpMachine(Machine):
             a = rng.uniform(max(-10.0, self.body.domain[0]), 8)
             return {"op": op, "a": a, "b": self._clip(a + _logu(rng, 0.5, 10.0)),
                     "n": rng.choice([2, 3, 4, 5, 8, 12, 20, 40])}
+        if op == "table_from_values":
+            a = rng.uniform(max(-10.0, self.body.domain[0]), 8)
+            return {"op": op, "a": a, "b": self._clip(a + _logu(rng, 0.5, 10.0)),
+                    "n": rng.choice([3, 5, 8, 12, 20])}
         if op == "evaluate":
             form, x, place = self._drawX(rng)
             step = {"op": op, "form": form, "x": x, "place": place,
@@ -708,13 +723,17 @@ class InterpMachine(Machine):
             order = rng.choice([1, 2])
             form, x, place = self._drawX(rng, order)
             interp = rng.random() < 0.85
+            if self.provider == "FreeEnergy" and form in ("ints", "intarray", "int"):
+                form, x = "float", float(x[0] if isinstance(x, list) else x)
             if self.provider == "FreeEnergy" and form not in ("float", "0d"):
                 # FreeEnergy's function body takes a scalar or 1-D temperature; the
                 # finite-difference path stacks stencil points on a new axis, so
                 # without interpolation it is only defined for scalar input
                 interp = True
                 if not self.obj.hasInterpolation():
-                    form, x = "float", (x[0] if x else 1.0)
+                    first = x[0] if isinstance(x, list) and x else (
+                        x if isinstance(x, (int, float)) else 1.0)
+                    form, x = "float", float(first)
             return {"op": op, "form": form, "x": x, "place": place, "order": order,
                     "interp": interp}
         if op == "extend":
@@ -754,7 +773,8 @@ class InterpMachine(Machine):
 
     def simplerSteps(self, step: dict):
         op = step["op"]
-        if op in ("evaluate", "derivative", "schedule") and step["form"] != "big":
+        if op in ("evaluate", "derivative", "schedule") and step["form"] not in (
+                "big", "ints", "intarray", "int"):
             x = step["x"]
             if step["form"] == "2d":
                 flat = [v for row in x for v in row]
@@ -833,6 +853,14 @@ class InterpMachine(Machine):
             rng = np.random.default_rng(int(x["seed"]))
             lo, hi = sorted((float(x["lo"]), float(x["hi"])))
             return rng.uniform(lo, hi if hi > lo else lo + 1.0, int(x["n"]))
+        if form in ("ints", "intarray", "int"):
+            self.ctx.probes["integer_typed_input"] += 1
+            vals = x if isinstance(x, list) else [x]
+            if form == "int" or (form == "ints" and not isinstance(x, list)):
+                return int(vals[0])
+            if form == "ints":
+                return [int(v) for v in vals]
+            return np.array([int(v) for v in vals], dtype=np.int64)
         if step.get("reuse") and form in ("1d", "2d"):
             new = np.array(x, dtype=float)
             buf = self.buffers.get(new.shape)
@@ -957,6 +985,41 @@ class InterpMachine(Machine):
                 f"table holds {got} abscissae; expected exactly the {want.size} of {n} "
                 "linspace points where every component is finite")
         return ["new_table", int(want.size)]
+
+    def _op_table_from_values(self, step: dict, before: Table | None) -> Any:
+        """newInterpolationTableFromValues with arrays the CALLER owns: the caller's
+        previous buffers are overwritten first (a loop that refills its work arrays),
+        then new ones are handed over"""
+        a, b, n = float(step["a"]), float(step["b"]), int(step["n"])
+        if not (b > a and n >= 2) or self.provider == "FreeEnergy":
+            raise Skip()
+        for buf in self.callerBuffers:
+            buf[...] = -7.25  # the caller reuses its old work arrays
+        if self.callerBuffers:
+            self.ctx.probes["caller_overwrote_arrays_given_to_table"] += 1
+        xs = np.linspace(a, b, n)
+        fx = np.array(self.body(xs), dtype=float)
+        keep = np.all(np.isfinite(fx.reshape(n, self.R)), axis=1)
+        self.callerBuffers = [xs, fx]
+        want = xs[keep].copy()
+        status, res = self._call("newInterpolationTableFromValues",
+                                 lambda: self.obj.newInterpolationTableFromValues(xs, fx))
+        after = self.table()
+        if status == "injected":
+            return ["table_from_values", "injected"]
+        if int(np.sum(keep)) < 2:
+            if status == "ok":
+                raise Violation("table-build", "built-from-<2-valid-points",
+                                "a table was built from fewer than two finite rows")
+            self._unchanged(before, after, "failed table_from_values")
+            return ["table_from_values", "too-few-valid"]
+        if status == "raised":
+            raise Violation("table-build", f"from-values-raised:{type(res).__name__}",
+                            f"newInterpolationTableFromValues raised {type(res).__name__}: {res}")
+        if after is None or after.xs.shape != want.shape or not np.array_equal(after.xs, want):
+            raise Violation("nonfinite-rows", f"from_values:R={min(self.R, 2)}",
+                            "table built from values does not hold exactly the finite rows")
+        return ["table_from_values", int(want.size)]
 
     def _unchanged(self, before: Table | None, after: Table | None, why: str) -> None:
         if (before is None) != (after is None) or (before is not None and not before.same(after)):
